@@ -873,11 +873,28 @@ def _row_item(fields, delim, i=0, trail=None):
     return {'kind': kind + '+trailing_comment', 'text': clean + trail, 'clean': clean, 'fields': list(fields), 'noise': 'trailing_comment'}
 
 
+def _respell(fields, delim):
+    """the last valid row again with its timestamp written with a leading zero / plus sign (same int value)"""
+    f = list(fields)
+    ti = 3 if len(f) == 4 and f[2] in ('+', '-') else 2
+    v = f[ti]
+    f[ti] = ('-0%d' % -v) if isinstance(v, int) and v < 0 else ('0%s' % v)
+    if len(f) == 4 and f[2] in ('+', '-'):
+        f[2] = '+'          # re-adding at the same instant is a no-op
+    it = _row_item(f, delim)
+    it['fields'] = list(fields[:ti]) + [v] + list(fields[ti + 1:])
+    if len(f) == 4 and f[2] in ('+', '-'):
+        it['fields'][2] = '+'
+    it['kind'] = it['kind'] + '+respelled_timestamp'
+    return it
+
+
 def _noise_catalog(delim, fmt, marker='#'):
     j = _jd(delim)
     other = ',' if delim in (None, ' ', '\t') else ' '
     cat = [('comment', marker + ' a comment'), ('comment', marker + j.join(('1', '2', '3'))), ('comment', marker + ' ' + j.join(('1', '2', '+', '3'))),
-           ('comment', '  ' + marker + ' indented comment'),
+           ('comment', '  ' + marker + ' indented comment'), ('comment', marker + ' 5 6 7 ' + marker + ' disabled'),
+           ('comment', marker + marker + ' ' + j.join(('1', '2', '3'))),
            ('empty', ''), ('whitespace', '   '), ('whitespace', '\t'), ('whitespace', ' \t '),
            ('short_row', '5'), ('short_row', j.join(('5', '6'))), ('short_row_unconvertible', j.join(('x', 'y'))),
            ('short_row', other.join(('5', '6', '7'))), ('short_row', other.join(('5', '6', '+', '7'))),
@@ -1127,7 +1144,7 @@ def c18_reader_noise_and_compaction(tier, seed):
                                     for pos in range(len(rows) + 1):
                                         cases.append(rows[:pos] + [nz] + rows[pos:])
                                 for pos in range(len(rows)):
-                                    for trail in ('#c', ' # 9 9 9', ' #', '\t# x y + z'):
+                                    for trail in ('#c', ' # 9 9 9', ' #', '\t# x y + z', ' # see issue #12', ' ## twice', '# a # 1 2 3'):
                                         cases.append(rows[:pos] + [_row_item(base[pos], delim, bi, trail)] + rows[pos + 1:])
                                 for items in cases:
                                     col.seen((fmt, directed, delim, eol, tuple(it['text'] for it in items)), True,
@@ -1211,7 +1228,9 @@ def c18_reader_noise_and_compaction(tier, seed):
                                     rows[:1] + [{'kind': 'wrong_arity_row', 'text': j.join(('8', '9', '+', '-5', 'x') if fmt == 'interactions' else ('8', '9')),
                                                  'clean': None, 'noise': 'wrong_arity_row'}] + rows[1:],
                                     rows[:1] + [{'kind': 'three_field_row', 'text': j.join(('8', '9', '-6')), 'clean': None, 'noise': 'three_field_row'}] + rows[1:]
-                                    if fmt == 'interactions' else rows]
+                                    if fmt == 'interactions' else rows,
+                                    # one timestamp VALUE spelled two ways ('5' and '05'): a rank is taken per distinct value
+                                    rows + [_respell(base[-1], delim)]]
                         for items in variants:
                             col.seen(('keys', fmt, directed, delim, tuple(it['text'] for it in items)), len(base) >= 2)
                             _c18_keys(col, fmt, directed, delim, items)
